@@ -479,7 +479,38 @@ class Check:
         (EVID / f"{self.pid}.json").write_text(json.dumps(ev, indent=1, default=str, sort_keys=True))
 
 
+def _exit_now(code):
+    """Leave with `code`.  If a non-daemon thread started by the code under test is still alive (a
+    reader thread blocked in `queue.put` after its consumer stopped: the limit recorded for C13),
+    the interpreter would wait for it forever at shutdown, after the verdict and the evidence have
+    been written; in that case run the exit handlers and leave without joining."""
+    import threading
+    stray = [t for t in threading.enumerate() if t is not threading.main_thread() and not t.daemon and t.is_alive()]
+    if not stray:
+        raise SystemExit(code)
+    print(f"note: {len(stray)} non-daemon thread(s) still alive at exit ({', '.join(t.name for t in stray[:5])}); "
+          "leaving without joining them", file=sys.stderr)
+    sys.stdout.flush()
+    sys.stderr.flush()
+    try:
+        import atexit
+        atexit._run_exitfuncs()
+    finally:
+        sys.stdout.flush()
+        sys.stderr.flush()
+        os._exit(code if isinstance(code, int) else (0 if code is None else 1))
+
+
 def run_check(chk: "Check", main, replay=None):
+    """`_run_check`, then leave through `_exit_now` (never hangs on a stray reader thread)."""
+    try:
+        _run_check(chk, main, replay)
+    except SystemExit as e:
+        _exit_now(e.code)
+    _exit_now(0)
+
+
+def _run_check(chk: "Check", main, replay=None):
     """Wrap a harness main.  Harness/infrastructure errors exit 2 (never a verdict); an
     exception that escapes from /repo code is a broken correspondence (the model never
     raises there), reported through the normal channel."""
